@@ -1,6 +1,6 @@
 (* C02 -- JSON Schema: every sample labelled invalid is rejected by the schema.
    Leaf level (proved here): each number labelled invalid lies just outside the bound it was built from. *)
-From Fences Require Import JsonGen JsonLeaves.
+From Fences Require Import JsonGen JsonLeaves JsonEnum.
 From Coq Require Import ZArith.
 Local Open Scope Z_scope.
 
@@ -19,3 +19,12 @@ Proof.
   - specialize (B hi E). lia.
 Qed.
 Print Assumptions C02_number_leaf_rejected.
+
+(* enum / const: no value that becomes an invalid leaf -- the members of NOT_enum outside the enum and the filler
+   string of '#' characters -- is (Python-)equal to a member of the enum; in particular the filler is longer than
+   every string of the enum *)
+Theorem C02_enum_leaf : forall ne en x,
+  hashable_all ne = true -> hashable_all en = true ->
+  In x (enum_invalid' ne en) -> pmem x en = false.
+Proof. exact enum_invalid_not_member. Qed.
+Print Assumptions C02_enum_leaf.
